@@ -200,6 +200,11 @@ func runC01(c *Ctx, _ []string) {
 	for _, f := range corpus {
 		run(f.cfg, f.shape, f.n, "corpus", 7, nil, 1)
 	}
+	// one block above the 4 MiB threshold of the parallel inverse BWT, size in the header: the single decoding task gets all
+	// the reader's jobs and splits its 8 chunks among them (uneven splits for 3, 5, 6, 7 jobs)
+	for _, rj := range []uint{3, 7} {
+		run(sCfg{"BWT", "NONE", 8 << 20, 1, 32, 5<<20 + 77, false}, "text", 5<<20+77, "corpus", 9, nil, rj)
+	}
 	for i := 0; i < n; i++ {
 		cfg := randCfg(r, false)
 		shape := dataShapes[r.Intn(len(dataShapes))]
@@ -433,16 +438,23 @@ func runC05(c *Ctx, _ []string) {
 			cfg.Block = 4096
 			size = nb*4096 - r.Intn(4096)
 		}
+		bigBWT := i == 3 // blocks above the 4 MiB threshold of the parallel inverse BWT, size in the header: with more jobs than blocks a task gets several jobs
 		many := i < 3 // more blocks than the 6-bit block-count hint of the header can express (63 = "63 or more")
 		if many {
 			cfg.Block = 1024
 			nb = []int{64, 65, 130}[i]
 			size = nb*1024 - r.Intn(1024)
 		}
+		if bigBWT {
+			cfg = sCfg{"BWT", "NONE", 8 << 20, 1, 0, 0, false}
+			nb = 2
+			size = 8<<20 + 5<<20
+			shape = "text"
+		}
 		dseed := r.U64()
 		data := mkData(shape, size, dseed)
 		hk := setHint(r, &cfg, size)
-		if hk == "smaller" || many {
+		if hk == "smaller" || many || bigBWT {
 			cfg.Hint = int64(size)
 		}
 		stream, stage, err := compress(cfg, data, nil)
@@ -459,7 +471,11 @@ func runC05(c *Ctx, _ []string) {
 			c.Violation(d)
 		}
 		// 1. same bytes for every job count, perturbed schedules
-		for _, j := range []uint{1, 2, 3, 4, 5, 8, uint(r.Range(9, 64))} {
+		jobList := []uint{1, 2, 3, 4, 5, 8, uint(r.Range(9, 64))}
+		if bigBWT {
+			jobList = []uint{1, 2, 5, 6, 7, 11, 14}
+		}
+		for _, j := range jobList {
 			undo := installPerturb(r.U64())
 			res := decompressTimed(stream, cfg, j, []int{1 + r.Intn(3*int(cfg.Block))}, 1, nil, 60*time.Second)
 			undo()
@@ -468,6 +484,9 @@ func runC05(c *Ctx, _ []string) {
 			if res.err != nil || res.panic != nil || !res.eof || !bytes.Equal(res.data, data) {
 				viol("decoding with %d jobs: err=%v panic=%v eof=%v got=%s want=%s", j, res.err, res.panic, res.eof, short(res.data), short(data))
 			}
+		}
+		if bigBWT {
+			continue
 		}
 		// 2. a failing block at every position: the error is reported, nothing from beyond the failed block
 		ci := parseContainer(stream, false, 0)
